@@ -859,7 +859,7 @@ REF_FCN REF_STATUS ref_part_cad_data(REF_GRID ref_grid, const char *filename) {
 
   end_of_string = strlen(filename);
 
-  if (strcmp(&filename[end_of_string - 6], ".meshb") != 0)
+  if (end_of_string <= 6 || strcmp(&filename[end_of_string - 6], ".meshb") != 0)
     RSS(REF_INVALID, "expected .meshb extension");
 
   file = NULL;
@@ -943,7 +943,7 @@ REF_FCN REF_STATUS ref_part_cad_association(REF_GRID ref_grid,
 
   end_of_string = strlen(filename);
 
-  if (strcmp(&filename[end_of_string - 6], ".meshb") != 0)
+  if (end_of_string <= 6 || strcmp(&filename[end_of_string - 6], ".meshb") != 0)
     RSS(REF_INVALID, "expected .meshb extension");
 
   file = NULL;
@@ -1009,7 +1009,7 @@ REF_FCN REF_STATUS ref_part_cad_discrete_edge(REF_GRID ref_grid,
 
   end_of_string = strlen(filename);
 
-  if (strcmp(&filename[end_of_string - 6], ".meshb") != 0)
+  if (end_of_string <= 6 || strcmp(&filename[end_of_string - 6], ".meshb") != 0)
     RSS(REF_INVALID, "expected .meshb extension");
 
   file = NULL;
@@ -2085,7 +2085,7 @@ REF_FCN REF_STATUS ref_part_metric(REF_NODE ref_node, const char *filename) {
 
   if (ref_mpi_once(ref_node_mpi(ref_node))) {
     end_of_string = strlen(filename);
-    if (strcmp(&filename[end_of_string - 5], ".solb") == 0)
+    if (end_of_string > 5 && strcmp(&filename[end_of_string - 5], ".solb") == 0)
       solb_format = REF_TRUE;
   }
   RSS(ref_mpi_all_or(ref_node_mpi(ref_node), &solb_format), "bcast");
@@ -2097,7 +2097,7 @@ REF_FCN REF_STATUS ref_part_metric(REF_NODE ref_node, const char *filename) {
 
   if (ref_mpi_once(ref_node_mpi(ref_node))) {
     end_of_string = strlen(filename);
-    if (strcmp(&filename[end_of_string - 4], ".csv") == 0)
+    if (end_of_string > 4 && strcmp(&filename[end_of_string - 4], ".csv") == 0)
       csv_format = REF_TRUE;
   }
   RSS(ref_mpi_all_or(ref_node_mpi(ref_node), &csv_format), "bcast");
@@ -2115,7 +2115,8 @@ REF_FCN REF_STATUS ref_part_metric(REF_NODE ref_node, const char *filename) {
     RNS(file, "unable to open file");
 
     end_of_string = strlen(filename);
-    if (strcmp(&filename[end_of_string - 4], ".sol") == 0) {
+    if (end_of_string > 4 &&
+        strcmp(&filename[end_of_string - 4], ".sol") == 0) {
       sol_format = REF_TRUE;
       found_keyword = REF_FALSE;
       dim = REF_EMPTY;
@@ -3114,6 +3115,7 @@ REF_FCN static REF_STATUS ref_part_scalar_snap(REF_NODE ref_node, REF_INT *ldim,
     RNS(file, "unable to open file");
 
     end_of_string = strlen(filename);
+    RAS(end_of_string > 5, "snap extension expected");
     REIS(0, strcmp(&filename[end_of_string - 5], ".snap"),
          "snap extension expected");
 
